@@ -9,3 +9,7 @@ fi
 /venv/bin/python -c "import hypothesis, numpy, netCDF4, click, ply; print('deps ok', hypothesis.__version__)"
 PYTHONPATH=/repo /venv/bin/python -c "import mpilot; print('mpilot ok')"
 mkdir -p evidence replays
+# Optional: atheris (libFuzzer for Python) for the coverage-guided part of C13; the check skips that part if absent.
+if [ ! -d .deps/atheris ]; then
+  PIP_NO_INDEX=1 /venv/bin/pip install -q --no-index --find-links /opt/veriftools/wheels --target .deps atheris >/dev/null 2>&1 || echo "atheris not installed (optional)"
+fi
